@@ -14,8 +14,8 @@ from ..procs import pmap
 from ..tlc import account, run_tlc, tla
 
 MODULE = 'vgen.migrate'
-TASKS = {'a': 'json', 'b': 'numpy', 'c': 'dir', 'p': 'pandas', 'g': 'generated', 'm': 'mem'}
-SLUG = {'a': 'a', 'b': 'grp:b', 'c': 'c', 'p': 'p', 'g': 'g', 'm': 'm'}
+TASKS = {'a': 'json', 'b': 'numpy', 'c': 'dir', 'p': 'pandas', 'g': 'generated', 'm': 'mem', 'f': 'figure', 'r': 'rep', 'v': 'voc'}
+SLUG = {'a': 'a', 'b': 'grp:b', 'c': 'c', 'p': 'p', 'g': 'g', 'm': 'm', 'f': 'fig', 'r': 'rep', 'v': 'left::voc'}
 
 
 def module():
@@ -30,7 +30,63 @@ def module():
         dict(slug='g', cls_name='MgTask', kind='generated', inputs=[dict(ref='a', how='class')], pulls=['a'], input_kinds={'a': 'json'}),
         dict(slug='m', cls_name='MmTask', kind='mem', inputs=[dict(ref='a', how='class')], pulls=['a'], input_kinds={'a': 'json'}),
     ]
-    return gen.make_module(specs, MODULE)
+    mod = gen.make_module(specs, MODULE)
+    import pylab
+    from taskchain import Task
+    from taskchain.data import ContinuesData
+    from taskchain.parameter import Parameter
+
+    class FigTask(Task):
+        class Meta:
+            name = 'fig'
+            input_tasks = [mod.CLASSES['a']]
+
+        def run(self, a) -> pylab.Figure:
+            gen.RUNLOG.append({'slug': 'fig'})
+            f = pylab.Figure()
+            ax = f.add_subplot(111)
+            ax.plot([1, 2, a['p']['x']])
+            ax.set_title(f"title {a['p']['x']}")
+            return f
+
+    class ContTask(Task):
+        class Meta:
+            name = 'cont'
+
+        def run(self) -> ContinuesData:
+            gen.RUNLOG.append({'slug': 'cont'})
+            d = self.get_data_object()
+            for i in range(3):
+                p = d.dir / f'{i}.txt'
+                if not p.exists():
+                    p.write_text(f'chunk {i}')
+                    if i == 2:
+                        d.finished()
+                    break
+            return d
+
+    class VocTask(Task):
+        class Meta:
+            name = 'voc'
+            parameters = [Parameter('w')]
+
+        def run(self, w) -> dict:
+            gen.RUNLOG.append({'slug': 'voc'})
+            return {'voc': w}
+
+    class RepTask(Task):
+        class Meta:
+            name = 'rep'
+            input_tasks = ['left::voc', 'right::voc']
+
+        def run(self) -> dict:
+            gen.RUNLOG.append({'slug': 'rep'})
+            return {'rep': [t.value for t in self.input_tasks.values()]}
+
+    for c in (FigTask, ContTask, VocTask, RepTask):
+        c.__module__ = MODULE
+        setattr(mod, c.__name__, c)
+    return mod
 
 
 def files(root):
@@ -57,14 +113,27 @@ def one(job):
     try:
         root.mkdir(parents=True)
         cfgf = root / 'my_config.json'
-        cfgf.write_text(json.dumps({'tasks': f'{MODULE}.*', 'x': 4}))
+        vf = root / 'v.json'
+        vf.write_text(json.dumps({'tasks': [f'{MODULE}.VocTask'], 'w': 9}))
+        cfgf.write_text(json.dumps({'tasks': [f'{MODULE}.M{t}Task' for t in 'abcpgm'] + [f'{MODULE}.FigTask', f'{MODULE}.ContTask',
+                                                                                      f'{MODULE}.RepTask'],
+                                    'x': 4, 'uses': [f'{vf} as left', f'{vf} as right']}))
         srcdir, dstdir = root / 'src', root / 'dst'
         old = Config(srcdir, cfgf).chain(parameter_mode=False)
         vals = {}
+        def dec(t, v):
+            if TASKS[t] == 'figure':
+                return v.axes[0].get_title()
+            if TASKS[t] in ('rep', 'voc'):
+                return v
+            return gen.decode(TASKS[t], v)
         for t in TASKS:
-            vals[t] = gen.decode(TASKS[t], old[SLUG[t]].value)
+            vals[t] = dec(t, old[SLUG[t]].value)
+        _ = old['cont'].value          # a resumable task interrupted after its first chunk: progress lives in <cfg>_tmp
+        progress = sorted(str(p.relative_to(srcdir)) for p in (srcdir / 'cont').rglob('*') if p.is_file() and '_tmp' in str(p))
+        stored = set(case['src']) | {'g', 'p'}
         for t in TASKS:
-            if TASKS[t] != 'mem' and t not in case['src']:
+            if TASKS[t] != 'mem' and t not in stored:
                 old[SLUG[t]].force(delete_data=True)
         before = files(srcdir)
         for step in case['hist']:
@@ -84,6 +153,10 @@ def one(job):
                 migrate_to_parameter_mode(Config(srcdir, cfgf), dstdir, dry=False, verbose=False)
             if results_only(files(dstdir)) != results_only(snap):
                 bad.append(('second-changes', f'{label}: a further migration changed the target'))
+        now_progress = sorted(str(p.relative_to(srcdir)) for p in (srcdir / 'cont').rglob('*') if p.is_file() and '_tmp' in str(p))
+        if now_progress != progress or not progress:
+            bad.append(('source-modified', f'{label}: the work directory of a resumable task in the source changed: '
+                                           f'{progress} -> {now_progress}'))
         if results_only(files(srcdir)) != results_only(before):
             bad.append(('source-modified', f'{label}: the source directory was modified: '
                                            f'{sorted(set(results_only(files(srcdir)).items()) ^ set(results_only(before).items()))[:4]}'))
@@ -93,15 +166,15 @@ def one(job):
         for t, kind in TASKS.items():
             if kind == 'mem':
                 continue
-            want = migrated and t in case['src']
+            want = migrated and t in (set(case['src']) | {'g', 'p'})
             has = bool(new[SLUG[t]].has_data)
             if has != want:
                 bad.append(('has-data', f'{label}: after migration the target has_data({SLUG[t]}) = {has}, in name mode it was '
                                         f'{t in case["src"]}'))
         if migrated and not bad:
-            for t in sorted(case['src']):
+            for t in sorted(set(case['src']) | {'g', 'p'}):
                 gen.RUNLOG.clear()
-                v = gen.decode(TASKS[t], new[SLUG[t]].value)
+                v = dec(t, new[SLUG[t]].value)
                 if v != vals[t]:
                     bad.append(('value', f'{label}: {SLUG[t]} loads {str(v)[:80]!r} in the target, the original is {str(vals[t])[:80]!r}'))
                 if gen.RUNLOG:
@@ -115,7 +188,7 @@ def one(job):
 
 
 def run(ctx):
-    pers = [t for t, k in TASKS.items() if k != 'mem']
+    pers = [t for t, k in TASKS.items() if k != 'mem' and t not in ('g', 'p')]   # (g, p always stored: keeps 2^n small)
     steps = 2 if ctx.quick() else 3
     mod = ('---- MODULE MCMigrate ----\nEXTENDS Migrate\n'
            f'c_Tasks == {tla(set(TASKS))}\nc_Pers == {tla(set(pers))}\n====\n')
